@@ -2,11 +2,11 @@
    Proved for ALL programs: (1) expressions - the emitted lines compute the source value in the shell
    (any nesting depth, any operator mix, all int64 values, strings as data); (2) integer literals keep their
    value through printing and re-reading; (3) the reference arithmetic is Go's int64 arithmetic;
-   (4) straight-line programs of assignments and prints (C01_straight_line_preserved); (5) the statement structure of the
-   script (C16/C04 theorems).  The simulation of control flow (if, for, break/continue, panic: C01_full_statement) is NOT proved; it is decided on
+   (4) straight-line programs of assignments and prints (C01_straight_line_preserved); (5) programs with conditionals at any nesting depth (C01_conditionals_preserved);
+   (6) the statement structure of the script (C16/C04 theorems).  The simulation of loops, break/continue and panic (C01_full_statement) is NOT proved; it is decided on
    generated programs by running the implementation's script under /bin/bash against Sem/Src.v. *)
 From Verif Require Import Base.Bytestr Base.DecFacts Front.Ast Front.FrontModel Back.BashLines Back.Transpile Back.BashConv
-  Back.BashFacts Sem.Src Sem.SrcFacts Sem.BashSem Sem.ExprPreserve Sem.Words Sem.StmtPreserve.
+  Back.BashFacts Sem.Src Sem.SrcFacts Sem.BashSem Sem.ExprPreserve Sem.Words Sem.StmtPreserve Sem.FlatSem Sem.IfPreserve.
 From Coq Require Import ZArith.
 Open Scope N_scope.
 
@@ -39,6 +39,17 @@ Theorem C01_straight_line_preserved : forall XS sg body sg' out,
   exists ls b', b_code s' = b_code s ++ ls /\ exec_outs b ls = Some (b', out) /\ represents sg' b' s' XS.
 Proof. exact straight_line_preserved. Qed.
 Print Assumptions C01_straight_line_preserved.
+
+(* Conditionals.  Programs of assignments, prints and if / else-if / else whose branches are again such programs, at any
+   nesting depth (slx is their source semantics: all conditions of a chain are evaluated first, then the first true branch
+   or the else part runs): the emitted lines, run by the flat shell model of Sem/FlatSem.v (condition lines [ c -eq 1 ],
+   a false condition moves to the next elif / else / fi of the construct, the end of a taken branch moves behind the
+   matching fi), print what the source prints and leave the environment representing the final source environment. *)
+Theorem C01_conditionals_preserved : forall XS sg body sg' out s u s' b,
+  slx XS sg body sg' out -> go_fix body s = TOk u s' -> env_ok sg -> ctx_ok XS sg b s ->
+  exists X b', b_code s' = b_code s ++ X /\ runs b X (b', out) /\ represents sg' b' s' XS.
+Proof. exact conditionals_preserved. Qed.
+Print Assumptions C01_conditionals_preserved.
 
 (* Integer literals: what the converters print is read back as the same int64. *)
 Theorem C01_literal_roundtrip : forall z, (-9223372036854775808 <= z <= 9223372036854775807)%Z -> atoi (dec_Z z) = Some z.
@@ -81,3 +92,17 @@ Example C01_straight_sample :
   | _ => False
   end.
 Proof. vm_compute. reflexivity. Qed.
+
+(* Non-vacuity of the conditional theorem: if x > 5 { print("big") } else if x > 3 { y = x * 2; print(t, y) } else { print("small") }; print("end") *)
+Definition cgt (n : Z) : expr := ECompare (EVar vx) CGt (EInt n).
+Definition prog2 : list stmt :=
+  [SIf [(cgt 5, [SPrint [EStr (bs "big")]]); (cgt 3, [SAssign [vy] [EBinary (EVar vx) OpMul (EInt 2)]; SPrint [EVar vt; EVar vy]])] [SPrint [EStr (bs "small")]];
+   SPrint [EStr (bs "end")]].
+Example C01_conditional_sample :
+  match go_fix prog2 b_init with
+  | TOk _ s' => option_map snd (run 200 false [(bs "x", bs "4"); (bs "t", bs "a""b $(touch X)")] (b_code s')) = Some (bs "a""b $(touch X) 8" ++ [10] ++ bs "end" ++ [10])
+                /\ option_map snd (run 200 false [(bs "x", bs "9"); (bs "t", bs "-")] (b_code s')) = Some (bs "big" ++ [10] ++ bs "end" ++ [10])
+                /\ option_map snd (run 200 false [(bs "x", bs "1"); (bs "t", bs "-")] (b_code s')) = Some (bs "small" ++ [10] ++ bs "end" ++ [10])
+  | _ => False
+  end.
+Proof. vm_compute. repeat split; reflexivity. Qed.
